@@ -252,6 +252,15 @@ func runC19(c *Ctx) {
 		ls := genLabels(r, r.Intn(3))
 		s := spell(ls, r, 0)
 		c19Name(c, "random", s, ls)
+		// the same labels in another legal spelling (letters and digits escaped, \\DDD for anything): the canonical name
+		// is that text with its ASCII letters in lower case, escaped or not
+		// (octets from 0x80 up stay in \\DDD form: written raw, CanonicalName's strings.Map turns those that are not valid
+		// UTF-8 into U+FFFD — outside this property, which speaks of the library's presentation form; noted in DESIGN)
+		if s1 := spell(ls, r, 3); s1 != s {
+			cn := dns.CanonicalName(s1)
+			c.Pred("random-spellings", "canon-vs-spec", hxs(s1), cn == asciiLower(s1), hxs(cn), hxs(asciiLower(s1)), true)
+			c.Op("random-spellings", "lab.canon "+hxs(s1), guard(func() string { return hxs(dns.CanonicalName(s1)) }), true)
+		}
 		// related name: share a suffix, change case, maybe differ in one label
 		k := 0
 		if len(ls) > 0 {
